@@ -81,7 +81,7 @@ Hypothesis Hleaf : forall a, P (VLeaf a).
 Hypothesis Htuple : forall l, Forall P l -> P (VTuple l).
 Hypothesis Hpair : forall a b, P a -> P b -> P (VPair a b).
 Hypothesis Hvariant : forall k v, P v -> P (VVariant k v).
-Hypothesis Hptr : forall v, P v -> P (VPtr v).
+Hypothesis Hptr : forall o v, P v -> P (VPtr o v).
 Hypothesis Hobj : forall l, Forall P l -> P (VObj l).
 Hypothesis Hvalueless : P VValueless.
 Fixpoint value_ind' (x : value leaf) : P x :=
@@ -91,7 +91,7 @@ Fixpoint value_ind' (x : value leaf) : P x :=
                              match l with [] => Forall_nil P | v :: t => Forall_cons v (value_ind' v) (go t) end) l)
   | VPair a b => Hpair a b (value_ind' a) (value_ind' b)
   | VVariant k v => Hvariant k v (value_ind' v)
-  | VPtr v => Hptr v (value_ind' v)
+  | VPtr o v => Hptr o v (value_ind' v)
   | VObj l => Hobj l ((fix go (l : list (value leaf)) : Forall P l :=
                          match l with [] => Forall_nil P | v :: t => Forall_cons v (value_ind' v) (go t) end) l)
   | VValueless => Hvalueless
@@ -133,6 +133,41 @@ Proof.
   - apply (hp_ok_seeds hp Hhp).
 Qed.
 
+(* ---------------- the ownership form of a pointer plays no part in hash and == (no hypothesis) *)
+Lemma fold_seed_retag f l :
+  Forall (fun x => hash (retag f x) = hash x) l -> forall seed, fold_seed seed (map (retag f) l) = fold_seed seed l.
+Proof.
+  unfold fold_seed. induction 1 as [|x l Hx _ IH]; intros seed; simpl; [reflexivity|]. rewrite Hx. apply IH.
+Qed.
+
+Lemma hash_retag f x : hash (retag f x) = hash x.
+Proof.
+  induction x using value_ind'; simpl.
+  - reflexivity.
+  - apply (fold_seed_retag f l H).
+  - rewrite IHx1, IHx2. reflexivity.
+  - rewrite IHx. reflexivity.
+  - exact IHx.
+  - apply (fold_seed_retag f l H).
+  - reflexivity.
+Qed.
+
+Lemma hash_same_up_to_ownership x y : erase_own x = erase_own y -> hash x = hash y.
+Proof.
+  intros E. rewrite <- (hash_retag (fun _ => OwnMake) x), <- (hash_retag (fun _ => OwnMake) y).
+  unfold erase_own in E. rewrite E. reflexivity.
+Qed.
+
+Lemma all2_retag f l :
+  Forall (fun x => forall y, veqb (retag f x) y = veqb x y) l -> forall m, all2 veqb (map (retag f) l) m = all2 veqb l m.
+Proof. induction 1 as [|x l Hx _ IH]; intros [|y m]; simpl; try reflexivity. rewrite Hx, IH. reflexivity. Qed.
+
+Lemma veqb_retag_l f x : forall y, veqb (retag f x) y = veqb x y.
+Proof.
+  induction x using value_ind'; intros [b|m|c d|j w|ow w|m|]; simpl; try reflexivity;
+    try (apply (all2_retag f l H)); try (rewrite IHx1, IHx2; reflexivity); try (rewrite IHx; reflexivity); try apply IHx.
+Qed.
+
 Hypothesis Hleaf : leaf_ok.
 
 (* ---------------- equal values hash equal *)
@@ -146,7 +181,7 @@ Qed.
 
 Lemma hash_respects_eq x : forall y, veqb x y = true -> hash x = hash y.
 Proof.
-  induction x using value_ind'; intros [b|m|c d|j w|w|m|]; simpl; try discriminate.
+  induction x using value_ind'; intros [b|m|c d|j w|ow w|m|]; simpl; try discriminate.
   - intros E. rewrite (leaf_hash_eq _ _ _ _ Hleaf _ _ E). reflexivity.
   - intros E. apply (fold_seed_eq l H m (hp_tuple_seed hp) E).
   - intros E. apply andb_true_iff in E. destruct E as [E1 E2]. rewrite (IHx1 c E1), (IHx2 d E2). reflexivity.
@@ -171,7 +206,7 @@ Qed.
 
 Lemma veqb_sym x : forall y, veqb x y = true -> veqb y x = true.
 Proof.
-  induction x using value_ind'; intros [b|m|c d|j w|w|m|]; simpl; try discriminate.
+  induction x using value_ind'; intros [b|m|c d|j w|ow w|m|]; simpl; try discriminate.
   - apply (leaf_eq_sym _ _ _ _ Hleaf).
   - apply all2_sym_local, H.
   - intros E. apply andb_true_iff in E. destruct E as [E1 E2]. rewrite (IHx1 c E1), (IHx2 d E2). reflexivity.
@@ -183,7 +218,7 @@ Qed.
 
 Lemma veqb_trans x : forall y z, veqb x y = true -> veqb y z = true -> veqb x z = true.
 Proof.
-  induction x using value_ind'; intros [b|m|c d|j w|w|m|] [b'|m'|c' d'|j' w'|w'|m'|]; simpl; try discriminate.
+  induction x using value_ind'; intros [b|m|c d|j w|ow w|m|] [b'|m'|c' d'|j' w'|ow' w'|m'|]; simpl; try discriminate.
   - apply (leaf_eq_trans _ _ _ _ Hleaf).
   - apply all2_trans_local, H.
   - intros E F. apply andb_true_iff in E. apply andb_true_iff in F. destruct E as [E1 E2], F as [F1 F2].
@@ -198,7 +233,7 @@ Qed.
 (* ---------------- the two directions computed by vlt2 are each other's mirror *)
 Lemma vlt2_swap x : forall y, vlt2 y x = swap (vlt2 x y).
 Proof.
-  induction x using value_ind'; intros [b|m|c d|j w|w|m|]; simpl; try reflexivity.
+  induction x using value_ind'; intros [b|m|c d|j w|ow w|m|]; simpl; try reflexivity.
   - apply lex2_swap_local, H.
   - rewrite IHx1, IHx2. destruct (vlt2 x1 c), (vlt2 x2 d). reflexivity.
   - rewrite IHx. destruct (vlt2 x w). simpl. rewrite (Nat.eqb_sym j k). reflexivity.
@@ -210,7 +245,7 @@ Proof. unfold Hash.vltb. rewrite vlt2_swap. reflexivity. Qed.
 
 Lemma cmp_shape_sym x : forall y, cmp_shape x y = true -> cmp_shape y x = true.
 Proof.
-  induction x using value_ind'; intros [b|m|c d|j w|w|m|]; simpl; try discriminate; auto.
+  induction x using value_ind'; intros [b|m|c d|j w|ow w|m|]; simpl; try discriminate; auto.
   - apply all2_sym_local, H.
   - intros E. apply andb_true_iff in E. destruct E as [E1 E2]. rewrite (IHx1 c E1), (IHx2 d E2). reflexivity.
   - rewrite (Nat.eqb_sym j k). destruct (k =? j)%nat; auto.
@@ -228,7 +263,7 @@ Proof. simpl. rewrite andb_true_r. reflexivity. Qed.
 (* ---------------- exactly one of <, ==, > *)
 Lemma vtri x : forall y, cmp_shape x y = true -> exactly_one (fst (vlt2 x y)) (veqb x y) (snd (vlt2 x y)).
 Proof.
-  induction x using value_ind'; intros [b|m|c d|j w|w|m|]; try (simpl; discriminate).
+  induction x using value_ind'; intros [b|m|c d|j w|ow w|m|]; try (simpl; discriminate).
   - intros _. simpl. apply (leaf_total _ _ _ _ Hleaf).
   - simpl. apply lex2_tri_local, H.
   - rewrite cmp_shape_pair, vlt2_pair, veqb_pair. apply lex2_tri_local. constructor; [assumption|]. constructor; [assumption|]. constructor.
@@ -280,7 +315,7 @@ Ltac natb :=
 Lemma vrules x : forall y z, cmp_shape x y = true -> cmp_shape y z = true -> cmp_shape x z = true ->
   order_rules (Lt value vlt2) (Eq value veqb) x y z.
 Proof.
-  induction x using value_ind'; intros [b|m|c d|j w|w|m|] [b'|m'|c' d'|j' w'|w'|m'|]; try (simpl; discriminate);
+  induction x using value_ind'; intros [b|m|c d|j w|ow w|m|] [b'|m'|c' d'|j' w'|ow' w'|m'|]; try (simpl; discriminate);
     (* variants against valueless variants: every comparison involved is a constant *)
     try (intros _ _ _; unfold order_rules, Lt, Eq; simpl; repeat split; intros; try discriminate; try reflexivity; fail).
   - intros _ _ _. apply leaf_rules.
